@@ -10,6 +10,6 @@ p = os.path.realpath(swcgeom.__file__)
 assert p.startswith("/repo/"), p
 print("swcgeom from", p, "numpy", numpy.__version__, "pandas", pandas.__version__)
 PY
-props=$(ls props/c*.py | sed 's#props/##; s#\.py##' | tr 'a-z' 'A-Z' | paste -sd, -)
+props=$(ls props/c[0-9]*.py | sed 's#props/##; s#\.py##' | tr 'a-z' 'A-Z' | paste -sd, -)
 /venv/bin/python selftest/determinism.py "$props" 48
 echo "setup ok"
